@@ -505,6 +505,7 @@ def run_check(pid, tier, keep=False, only=None, dev_group=None):
             if not ok:
                 inconclusive.append("audit %s: %s" % (audit, msg))
         jobs = []
+        prepared = []
         for gname in ([dev_group] if dev_group else prop["groups"]):
             from registry import GROUPS
             group = GROUPS[gname]
@@ -522,7 +523,11 @@ def run_check(pid, tier, keep=False, only=None, dev_group=None):
             except OverlayError as e:
                 inconclusive.append("group %s: overlay does not apply: %s" % (gname, e))
                 continue
-            ok, err = warm_build(group, tree, scratch)
+            prepared.append((gname, group, tree, scratch, hs))
+        # compile the dependencies of every group once, groups in parallel
+        with ThreadPoolExecutor(max_workers=max(1, min(len(prepared), MAX_PAR))) as ex:
+            builds = list(ex.map(lambda t: warm_build(t[1], t[2], t[3]), prepared))
+        for (gname, group, tree, scratch, hs), (ok, err) in zip(prepared, builds):
             if not ok:
                 inconclusive.append("group %s does not build: %s" % (gname, err[-600:]))
                 log("INCONCLUSIVE group=%s build failed\n%s" % (gname, err[-2000:]))
